@@ -700,6 +700,7 @@ def faithful_records(rep: Report, ctx: Ctx, rule: str,
     attribute the getter reads."""
     n_cls = n_attr = n_par = n_prop = 0
     by_node = {id(f.node): f for f in ctx.index.all_functions()}
+    consts = constant_params(ctx)
 
     def fi_of(ci, node):  # type: ignore[no-untyped-def]
         if id(node) in by_node:
@@ -770,10 +771,13 @@ def faithful_records(rep: Report, ctx: Ctx, rule: str,
             for st in ci.node.body:
                 if not isinstance(st, ast.FunctionDef):
                     continue
+                mfi = by_node.get(id(st))
+                dead = dead_statements(ctx, mfi, consts) if mfi else set()
                 for x in ast.walk(st):
                     if isinstance(x, ast.Attribute) and isinstance(
                             x.value, ast.Name) and x.value.id == "self" \
-                            and isinstance(x.ctx, ast.Load):
+                            and isinstance(x.ctx, ast.Load) \
+                            and id(x) not in dead:
                         reads.setdefault(x.attr, x)
             lazily = set()
             for st in ci.node.body:
@@ -975,3 +979,100 @@ def faithful_records(rep: Report, ctx: Ctx, rule: str,
                                detail=gbad or "guard consistent")
     rep.analysed[f"{rule}_records"] = {"classes": n_cls, "attributes": n_attr,
                                        "stores": n_par, "properties": n_prop}
+
+
+def constant_params(ctx: Ctx, entry_spec: str = "pv_to_puml_string"
+                    ) -> dict[tuple[str, str], object]:
+    """(function, parameter) -> the one constant every call site in the
+    closure of the entry point passes (directly, or by forwarding a
+    parameter that is itself such a constant).  Used to recognise branches
+    that today's pipeline cannot take (``direction == "incoming"``)."""
+    entry = ctx.func(entry_spec)
+    clo = [ctx.index.functions[q] for q in sorted(ctx.cg.closure([entry]))
+           if q in ctx.index.functions]
+    TOP = object()
+    val: dict[tuple[str, str], object] = {}
+    sites: dict[str, list[tuple[FuncInfo, ast.Call]]] = {}
+    for f in clo:
+        for site in ctx.cg.sites_in(f):
+            if isinstance(site.node, ast.Call):
+                for c in site.callees:
+                    sites.setdefault(c.qualname, []).append((f, site.node))
+    BOT = object()
+    cur: dict[tuple[str, str], object] = {}
+    changed = True
+    rounds = 0
+    while changed and rounds < 12:
+        changed = False
+        rounds += 1
+        for f in clo:
+            ps = f.params()
+            off = 1 if ps and ps[0] in ("self", "cls") else 0
+            for i, p in enumerate(ps[off:]):
+                acc: object = BOT
+                calls = sites.get(f.qualname, [])
+                if not calls:
+                    acc = TOP
+                for caller, call in calls:
+                    a: Optional[ast.AST] = None
+                    if i < len(call.args) and not any(isinstance(
+                            x, ast.Starred) for x in call.args[:i + 1]):
+                        a = call.args[i]
+                    for kw in call.keywords:
+                        if kw.arg == p:
+                            a = kw.value
+                    if a is None:
+                        a = default_of(f.node, p)
+                    v: object = TOP
+                    if isinstance(a, ast.Constant):
+                        v = ("c", a.value)
+                    elif isinstance(a, ast.Name) and a.id in caller.params():
+                        v = cur.get((caller.qualname, a.id), BOT)
+                    if v is BOT:
+                        continue
+                    if acc is BOT:
+                        acc = v
+                    elif acc != v:
+                        acc = TOP
+                if cur.get((f.qualname, p), BOT) != acc and acc is not BOT:
+                    cur[(f.qualname, p)] = acc
+                    changed = True
+    val = {k: v[1] for k, v in cur.items()  # type: ignore[index]
+           if isinstance(v, tuple)}
+    return val
+
+
+def dead_statements(ctx: Ctx, fi: FuncInfo,
+                    consts: dict[tuple[str, str], object]) -> set[int]:
+    """ids of the statements in arms that cannot run because a parameter is
+    the same constant at every call site of today's pipeline."""
+    dead: set[int] = set()
+    mine = {p: v for (q, p), v in consts.items() if q == fi.qualname}
+    if not mine:
+        return dead
+
+    def truth(t: ast.AST) -> Optional[bool]:
+        if isinstance(t, ast.Compare) and len(t.ops) == 1:
+            l, r = t.left, t.comparators[0]
+            if isinstance(r, ast.Name) and isinstance(l, ast.Constant):
+                l, r = r, l
+            if isinstance(l, ast.Name) and l.id in mine and isinstance(
+                    r, ast.Constant):
+                if isinstance(t.ops[0], ast.Eq):
+                    return mine[l.id] == r.value
+                if isinstance(t.ops[0], ast.NotEq):
+                    return mine[l.id] != r.value
+        return None
+    for n in ast.walk(fi.node):
+        if isinstance(n, ast.If):
+            tv = truth(n.test)
+            if tv is True:
+                arm = n.orelse
+            elif tv is False:
+                arm = n.body
+            else:
+                continue
+            for st in arm:
+                for x in ast.walk(st):
+                    dead.add(id(x))
+    return dead
